@@ -26,7 +26,7 @@ def play(ctx, scenarios, binary=None, timeout=90, env_extra=None, workers=None):
         with open(sp, "w") as f:
             json.dump(sc, f)
         try:
-            p = subprocess.run([binary, "node", "-vectors", sp, "-out", tp], cwd=ctx.scratch, env=env,
+            p = subprocess.run([binary, "node", "-vectors", sp, "-out", tp], cwd=ctx.scratch, env=env, stdin=subprocess.DEVNULL,
                                capture_output=True, text=True, timeout=timeout)
             rc, err = p.returncode, p.stderr
         except subprocess.TimeoutExpired as e:
@@ -75,7 +75,7 @@ def validate(ctx, runs, defs, prop_prefixes, keyfn=None):
                         raise vf.Inconclusive("player crashed outside the library on %s: %s" % (sc["name"], err[-1500:]))
                     lines.append(json.dumps({"e": "Final", "seq": last["seq"] + 2, "t": last.get("t", 0), "goroutines_left": 0, "stacks": [],
                                              "ports_rebound": True, "custom_close": [], "events_closed": True, "conns_not_released": 0,
-                                             "serial_not_closed": 0, "frames_changed_after_delivery": 0, "synthetic": True}))
+                                             "serial_not_closed": 0, "frames_changed_after_delivery": 0, "sockets_left": 0, "synthetic": True}))
                 stats["events"] += len(lines)
                 out.write("\n".join(lines) + "\n")
         paths.append(p)
